@@ -251,6 +251,27 @@ def run(ctx, res):
             res.violation(rid3, "%s-single-datum" % f, "the keys %s are mapped to the one field `%s`, but rule meta-data is inherited key "
                           "by key and nothing compares a key with those names: a production that gives `%s` itself still inherits "
                           "the rule's `%s`, and the one applied last wins" % (sorted(ks), f, sorted(ks)[0], sorted(ks)[-1]), ep.loc())
+    # every key under which the associativity keywords (left, reduce, right, shift) are stored has to be one the inheritance
+    # knows as associativity: a keyword stored under a key of its own is inherited as if it were unrelated user meta-data,
+    # and the production ends up with its own and the rule's associativity (seed C09-10)
+    from . import c05_meta
+    akeys = {}
+    for kw in ("left", "reduce", "right", "shift"):
+        fa = F.fn(c05_meta.ACTIONS + "prod_meta_data_" + kw)
+        if fa is not None:
+            for sx in c05_meta.str_consts(fa):
+                akeys.setdefault(sx, set()).add(kw)
+    if not akeys:
+        res.undecided(rid3, "the actions that store the associativity keywords were not found", ep.loc())
+    else:
+        unknown = {k_: v_ for k_, v_ in akeys.items() if k_ not in compared}
+        if unknown:
+            res.violation(rid3, "assoc-keys-recognised", "associativity keyword(s) %s are stored under meta key(s) %s, which the inheritance "
+                          "of rule meta-data does not treat as associativity (it compares %s): a production with its own "
+                          "associativity in that spelling also inherits the rule's" % (
+                              sorted(set().union(*unknown.values())), sorted(unknown), sorted(compared & {"left", "right", "reduce", "shift"})), ep.loc())
+        else:
+            res.ok(rid3, "assoc-keys-recognised", ep.loc(), "keywords left/reduce/right/shift are stored under %s, all compared by the inheritance" % sorted(akeys))
     # the Layout rule is the rule NAMED `Layout`: a comparison through to_lowercase() makes a user rule `LAYOUT` or `layout`
     # the layout of the grammar (D47)
     rid2b = res.rule("C09-R2b", "the special rule is found by its documented name `Layout`, compared as written", floor=1)
